@@ -374,6 +374,10 @@ func runC12(tier string, seed uint64, o *Out) error {
 		o.Line("%s", l)
 	}
 	o.Count(fmt.Sprintf("sql_predicates_%d", len(preds)))
+	// (4b) comparisons written literal-first, rows around the literal (harness/c12lf.go)
+	if err := runC12LF(tier, seed, o); err != nil {
+		return err
+	}
 	// (5) escaped string literals against rows holding both readings of the literal (harness/c12esc.go)
 	if err := runC12Esc(tier, seed, o); err != nil {
 		return err
